@@ -289,6 +289,15 @@ where
         }
     }
 
+    // A degenerate simplex has a rank-deficient edge matrix, but its Gram determinant rarely
+    // evaluates to exactly zero; rounding noise would be reported as a (tiny) positive volume.
+    if crate::geometry::matrix::is_numerically_singular(&edge_matrix) {
+        return Err(CircumcenterError::MatrixInversionFailed {
+            details: "Degenerate simplex with zero volume (edge matrix is singular up to rounding)"
+                .to_string(),
+        });
+    }
+
     // Compute Gram matrix G where G[i,j] = edge_i · edge_j
     let mut gram_matrix = crate::geometry::matrix::Matrix::<D>::zero();
     for i in 0..D {
